@@ -253,6 +253,10 @@ func (in *Interp) Eval(env *Env, v *V) (*V, *Err) {
 			return Nil(), nil
 		}
 		return in.evalCall(env, v)
+	case KQuote:
+		// a quote wrapper whose own mark was taken off (by a macro call's shallow
+		// unquote): evaluate what it wraps
+		return in.Eval(env, v.L[0])
 	default:
 		return v, nil
 	}
